@@ -36,7 +36,12 @@ type RpcMultiplexer struct {
 
 	mutex         sync.Mutex
 	streamCounter uint64
-	rErr          error
+
+	// rErr is written with both mutex and rErrMutex held, so holding either is
+	// enough to read it. The read loop holds mutex while it waits for a call to
+	// take its Rpc; rErrMutex is never held across anything that blocks.
+	rErrMutex sync.Mutex
+	rErr      error
 
 	codec encoding.CodecV2
 }
@@ -70,7 +75,9 @@ func (rm *RpcMultiplexer) closeError(err error) {
 	rm.cancel()
 
 	if err != nil {
+		rm.rErrMutex.Lock()
 		rm.rErr = err
+		rm.rErrMutex.Unlock()
 		for id, h := range rm.handlers {
 			close(h.ch)
 			delete(rm.handlers, id)
@@ -268,9 +275,12 @@ func (rm *RpcMultiplexer) unregisterHandler(id uint64, gone chan struct{}) {
 	delete(rm.handlers, id)
 }
 
+// readErrorIfDone must not wait for mutex: a send whose transport write failed
+// asks here why, possibly while the read loop is parked (holding mutex) on that
+// very call's unread responses, which the caller only reads after the send.
 func (rm *RpcMultiplexer) readErrorIfDone() error {
-	rm.mutex.Lock()
-	defer rm.mutex.Unlock()
+	rm.rErrMutex.Lock()
+	defer rm.rErrMutex.Unlock()
 
 	return rm.rErr
 }
